@@ -60,6 +60,15 @@ def corpus():
     # F70: the update moves away from the bound
     K = base(); lp = K.body[0].kids[0]; lp.raw, lp.raw_ir = "int i = 0; i > N; ++i", "k,0,k,gt,?,k,inc,-,l"
     out.append([G.t_op(K, REJECT)])
+    # every invalid loop-header shape once, on the @inner and on the @outer loop of the base kernel (the random
+    # mutations draw one shape at a time; seeded change C22-m2 — `!=`/`==` accepted as the check operator — was
+    # missed when the `!= 0; --v` shape was not drawn)
+    for idx in range(len(G.BAD_HEADERS)):
+        for which in (0, 1):
+            K = base(); lp = K.body[0].kids[0] if which == 0 else K.body[0]
+            text, code = G.BAD_HEADERS[idx]
+            lp.raw, lp.raw_ir = text.replace("{v}", lp.hdr.var), code
+            out.append([G.t_op(K, REJECT)])
     # sibling nested @outer loops with different @inner depth; the second of two kernels is fine, the first is not
     g1, b1 = G.sibling_outer_kernels(r)
     out.append([G.t_op(g1, ACCEPT), G.t_op(b1, REJECT)])
